@@ -272,6 +272,9 @@ func (j JPEG) Bytes() ([]byte, *Map) {
 		b.Write(s.Data)
 		m.add("jpeg.seg.length", off+2, 2, false, "length")
 		m.Ends = append(m.Ends, off+4, b.Len())
+		for _, f := range AppFields(s.Marker, s.Data) {
+			m.add(f.Name, off+4+f.Off, f.Len, f.Little, f.Kind)
+		}
 		if s.Marker == 0xC0 || s.Marker == 0xC2 {
 			if sofEnd < 0 {
 				sofEnd = b.Len()
